@@ -6,6 +6,7 @@ CONSTANTS
   WithHist = TRUE
   MaxG = 1
   GenLen = 14
+  WithWDL = FALSE
   DEV = "none"
 INVARIANTS Emit
 CONSTRAINT GenBound
